@@ -131,11 +131,21 @@ pub enum Outcome {
 }
 
 /// Runs construction + encode in a fresh (named) thread so that {T} is under control.
-pub fn run_pattern(pattern: &str, rec: &RecSpec, accept: Vec<usize>, construct_only: bool) -> Outcome {
+pub fn run_pattern(pattern: &str, rec: &RecSpec, accept: Vec<usize>, construct_only: bool, via_config: bool) -> Outcome {
     let body = move || -> Outcome {
-        let enc = match catch(|| log4rs::encode::pattern::PatternEncoder::new(pattern)) {
-            Ok(e) => e,
-            Err(p) => return Outcome::PanicNew(p),
+        // a third of the cases build the encoder from a configuration value, as a config file would
+        let enc: Box<dyn Encode> = if via_config {
+            let v: serde_value::Value = serde_json::from_value(json!({"pattern": pattern})).unwrap();
+            match catch(|| log4rs::config::Deserializers::default().deserialize::<dyn Encode>("pattern", v)) {
+                Ok(Ok(e)) => e,
+                Ok(Err(e)) => return Outcome::PanicNew(format!("deserializer refused a pattern: {}", e)),
+                Err(p) => return Outcome::PanicNew(p),
+            }
+        } else {
+            match catch(|| log4rs::encode::pattern::PatternEncoder::new(pattern)) {
+                Ok(e) => Box::new(e),
+                Err(p) => return Outcome::PanicNew(p),
+            }
         };
         if construct_only {
             return Outcome::Constructed;
@@ -338,13 +348,13 @@ pub fn compare(expected: &Value, out: &[Out], window: Option<(chrono::DateTime<c
     None
 }
 
-fn check_case(case: &Value, rec: &RecSpec) -> Option<Value> {
+fn check_case(case: &Value, rec: &RecSpec, idx: usize) -> Option<Value> {
     let pattern = sub(case["input"].as_str().unwrap());
     let exp = &case["out"];
     let toks: Vec<&str> = exp.as_array().unwrap().iter().map(|t| t.as_str().unwrap()).collect();
     let huge = toks.contains(&"<HUGE>");
     let expects_error = toks.contains(&"<ERR>");
-    match run_pattern(&pattern, rec, vec![], huge) {
+    match run_pattern(&pattern, rec, vec![], huge, idx % 3 == 1) {
         Outcome::PanicNew(p) => Some(json!({"what": "PatternEncoder::new panicked", "error": p})),
         Outcome::PanicEncode(p) => Some(json!({"what": "encode panicked", "error": p})),
         Outcome::Constructed => None,
@@ -367,7 +377,7 @@ pub fn main(args: &[String]) {
             Some(v) if !v.is_null() => Some(rec_from(v)),
             _ => None,
         };
-        check_case(c, r.as_ref().unwrap_or(&rec)).into_iter().map(|m| json!({"case": i, "input": c["input"], "expected": c["out"], "mismatch": m})).collect()
+        check_case(c, r.as_ref().unwrap_or(&rec), i).into_iter().map(|m| json!({"case": i, "input": c["input"], "expected": c["out"], "mismatch": m})).collect()
     });
     write_ndjson(&args[1], &res);
     println!("{}", json!({"cases": cases.len(), "mismatches": res.len()}));
